@@ -4,7 +4,7 @@ import sys, os, shutil, json, glob, subprocess
 pid, n, caught = sys.argv[1], sys.argv[2], sys.argv[3]
 needs = " ".join(sys.argv[4:])
 src = f"/tmp/seed/{pid}.out/change{n}"
-dst = f"/verif/seeded/{pid}-{n}"
+dst = f"/verif/seeded/{pid}-{os.environ.get('DEST_N', n)}"
 os.makedirs(dst, exist_ok=True)
 for f in glob.glob(src + "/*"):
     b = os.path.basename(f)
@@ -13,7 +13,7 @@ for f in glob.glob(src + "/*"):
 head = subprocess.run(["git", "-C", "/repo", "rev-parse", "--short", "HEAD"], capture_output=True, text=True).stdout.strip()
 meta = {
     "property": pid,
-    "change": int(n),
+    "change": int(os.environ.get("DEST_N", n)),
     "breaks": open(f"/tmp/seed/{pid}.prop.txt").read().split("\n")[0],
     "needs_to_manifest": needs,
     "verified_on_repo_head": head,
